@@ -7,13 +7,17 @@ Line protocol of the C14 model driver (harness/c14.py).
 
   esc <0|1> <tok>                      -> ok <tok>            encodeStr ensure_ascii s
   dec <tok>                            -> ok <tok> <tok> | none     decodeStr (text, rest)
-  dumps <ea> <default> <k> <strOf…> <value>  -> ok <tok> | err <Kind>   dumps ea (toJson default v)
+  dumps <ea> <default> <sort> <skip> <nan> <k> <strOf…> <value>  -> ok <tok> | err <Kind>
+                                          dumps ea (toJson ⟨default, sort_keys, skipkeys, allow_nan⟩ v)
+  opts                                 -> <default> <sort> <skip> <nan> <ea>   the REGENERATED keyword arguments
   loads <tok>                          -> ok <tok> | none     dumps false (loads s)
   ser <text> <k> <strOf…> <20 fields>  -> ok <tok> | err <Kind>     serializeRecord
   emit <0|1> <text> <k> <strOf…> <20 fields>  -> same, through `emit serialize`
+  hemit <catch> <0|1> <text> <k> <strOf…> <20 fields>  -> wrote <tok> | raised <Kind> | reported <Kind>   handlerEmit
   col <n|0|1> <0|1> <0|1>              -> 0|1                 handlerColorize colorize serialize sinkWants
 
-value tokens (prefix order): n  T  F  i<int>  d<floattok>  s<tok>  l<count> v…  m<count> (k<tok> v)…  o<id>
+value tokens (prefix order): n  T  F  i<int>  d<floattok>  s<tok>  l<count> v…  m<count> (key v)…  o<id>
+key tokens: k<tok> (str)  Ki<int>  Kd<floattok>  KT  KF  Kn  Ko<id> (a key json has no rule for)
 strOf table: k entries, `<tok>` = str(obj) or `!Kind` = str(obj) raised
 exception: x0 | x1 (N | s<tok>) <value> (T|F)
 -/
@@ -28,6 +32,19 @@ def mkFloat (s : Str) : Option FloatTok :=
   if h : floatTokOK s = true then some ⟨s, h⟩ else none
 
 def tail1 (s : String) : String := String.ofList (s.toList.drop 1)
+
+def tail2 (s : String) : String := String.ofList (s.toList.drop 2)
+
+def pKey (k : String) : Option PyKey :=
+  match k.toList with
+  | 'k' :: _ => (decTok (tail1 k)).map PyKey.str
+  | ['K', 'T'] => some (.bool true)
+  | ['K', 'F'] => some (.bool false)
+  | ['K', 'n'] => some .none
+  | 'K' :: 'i' :: _ => (tail2 k).toInt?.map PyKey.int
+  | 'K' :: 'd' :: _ => (decTok (tail2 k)).bind mkFloat |>.map PyKey.float
+  | 'K' :: 'o' :: _ => (tail2 k).toNat?.map PyKey.other
+  | _ => none
 
 mutual
 partial def pVal (ts : List String) : Option (PyVal × List String) :=
@@ -58,12 +75,9 @@ partial def pMembers (n : Nat) (ts : List String) : Option (PyMembers × List St
   | n + 1 =>
     match ts with
     | k :: r =>
-      match k.toList with
-      | 'k' :: _ =>
-        match decTok (tail1 k), pVal r with
-        | some k', some (v, r') => (pMembers n r').map (fun p => (.cons k' v p.1, p.2))
-        | _, _ => none
-      | _ => none
+      match pKey k, pVal r with
+      | some k', some (v, r') => (pMembers n r').map (fun p => (.cons k' v p.1, p.2))
+      | _, _ => none
     | [] => none
 end
 
@@ -153,12 +167,16 @@ def step (line : String) : String :=
   | ["col", c, s, w] =>
     let c : Option Bool := if c = "n" then none else some (c = "1")
     if handlerColorize c (s = "1") (w = "1") then "1" else "0"
-  | "dumps" :: ea :: df :: rest =>
+  | ["opts"] =>
+    let b (x : Bool) : String := if x then "1" else "0"
+    b genOpts.useDefault ++ " " ++ b genOpts.sortKeys ++ " " ++ b genOpts.skipKeys ++ " " ++ b genOpts.allowNan
+      ++ " " ++ b Gen.ensureAscii
+  | "dumps" :: ea :: df :: so :: sk :: an :: rest =>
     match pTable rest with
     | some (strOf, r) =>
       match pVal r with
       | some (v, []) =>
-        showRes (match toJson (df = "1") strOf v with
+        showRes (match toJson ⟨df = "1", so = "1", sk = "1", an = "1"⟩ strOf v with
           | .ok j => .ok (dumps (ea = "1") j)
           | .error e => .error e)
       | _ => "bad-op"
@@ -168,6 +186,17 @@ def step (line : String) : String :=
     | some text, some (strOf, r) =>
       match pRecord r with
       | some rec => showRes (serializeRecord strOf text rec)
+      | none => "bad-op"
+    | _, _ => "bad-op"
+  | "hemit" :: c :: ser :: text :: rest =>
+    match decTok text, pTable rest with
+    | some text, some (strOf, r) =>
+      match pRecord r with
+      | some rec =>
+        match handlerEmit (c = "1") (ser = "1") strOf text rec with
+        | .wrote s => "wrote " ++ encTok s
+        | .raised e => "raised " ++ toString e
+        | .reported e => "reported " ++ toString e
       | none => "bad-op"
     | _, _ => "bad-op"
   | "emit" :: ser :: text :: rest =>
